@@ -187,7 +187,7 @@ impl Property for C08 {
         "C08"
     }
     fn rule(&self) -> String {
-        "each case = one job (a generated size-static program with banks/faults, a cascading program, a feature-mix program (functions, #if arms, asm blocks, sub-rules, banks, assertions, a user constant named `pc`), a test-corpus program with its directory, or a token-mutated corpus program; one generated job in five carries a command-line define overriding an appended constant that a data directive emits) x iteration budgets \
+        "each case = one job (a generated size-static program with banks/faults, a cascading program, a feature-mix program (functions, #if arms, asm blocks, sub-rules, banks, assertions, a user constant named `pc`), a program whose rules reach one text from different prefix buckets of the matcher index, a test-corpus program with its directory, or a token-mutated corpus program; one generated job in five carries a command-line define overriding an appended constant that a data directive emits) x iteration budgets \
          {1,2,3,10,30} x the four (optimize_statically_known, optimize_instruction_matching) combinations. Metamorphic oracle: for every budget the four runs agree on \
          success/failure and, on success, on every output bit and on the symbols text (diagnostic wording is not compared). Non-trivial = the job assembles under at least one \
          configuration and contains an instruction; distinct by hash of the file set."
